@@ -55,6 +55,15 @@ HAND = [
     ("let t = \"global\"; { let t = \"first\"; let t = \"second\"; push(__o, t); } fn later() { t } push(__o, later()); { push(__o, t); }", ["\"second\"", "\"global\"", "\"global\""]),
     ("{ let tmp = 1; let tmp = 2; } fn later() { tmp } later();", "compile_error"),
     ("fn f() { let a = \"outer\"; { let a = 1; let a = 2; let a = 3; } let g = fn() { a }; g() } push(__o, f());", ["\"outer\""]),
+    # an assignment whose right-hand side is a function literal with a parameter named like the assigned variable
+    ("fn f(a, b) { b = fn(b) { b }; [a, b(5)] } push(__o, f(1, 2));", ["[1, 5]"]),
+    ("fn f(a, b, c) { c = fn(a) { a * 2 }; b = fn(c) { c + 1 }; [a, b(10), c(10)] } push(__o, f(1, 2, 3));", ["[1, 11, 20]"]),
+    ("let g1 = 1; let g2 = 2; g2 = fn(g2) { g2 + g1 }; push(__o, g2(10)); push(__o, g1);", ["11", "1"]),
+    ("fn f(a, b) { let i = 0; while i < 2 { i = fn(i) { i + 1 }(i); } b = i; [a, b] } push(__o, f(7, 8));", ["[7, 2]"]),
+    # a closure that assigns a captured variable, binds the same name in a nested block, and reads it after that block
+    ("fn mk() { { let c = 0; return fn() { c = c + 10; { let c = 99; } c }; } } let f = mk(); push(__o, f()); push(__o, f());", ["10", "20"]),
+    ("fn mk() { { { let c = 1; return fn() { c = c * 2; if true { let c = 0; c; } { let c = 5; } c }; } } } let f = mk(); push(__o, f()); push(__o, f());", ["2", "4"]),
+    ("fn mk() { let c = 0; fn() { c = c + 1; { let c = 50; { let c = 60; } } c } } let f = mk(); push(__o, f()); push(__o, f());", ["1", "2"]),
     # the name of an enclosing function, used from a helper closure inside it, is that function
     ("fn f(n) { let g = fn() { f(n - 1) }; if n <= 0 { 0 } else { g() + 1 } } push(__o, f(3));", ["3"]),
     ("fn walk(t) { let go = fn(k) { if k == 0 { 0 } else { 1 + walk(k - 1) } }; go(t) } push(__o, walk(3));", ["3"]),
